@@ -35,6 +35,7 @@ class ContractTable:
             "_normalize": self.c_refining("norm"),
             "_fully_reduce": self.c_refining("fred"),
             "at": self.c_at,
+            "_consolidate_expression_lacking_variables": self.c_consolidate,
             "__eq__": self.c_eq,
             "__ne__": self.c_ne,
             "__hash__": self.c_hash,
@@ -102,7 +103,7 @@ class ContractTable:
             fd = o.cls.lookup(attr)
             if fd is not None and fd.is_property and attr != "_reducers":
                 return I.call_funcdef(fd, [o], {})
-        if attr in self.inlinable_on_child and attr not in I.force_contract:
+        if attr in self.inlinable_on_child and not I.forced(attr):
             fd = self.prog.classes["Expression"].methods[attr]
             return BoundMethod(o, fd)
         if self.has(attr):
@@ -327,12 +328,28 @@ class ContractTable:
         r.ghost["denotes"] = ("refines", o)
         # dens already materialised for o get the link when r's den is requested
 
+    def c_consolidate(self, I, o, args, kwargs):
+        """Constant folding: None, or Constant(c) where the receiver is variable-free and
+        defined with value c (at every point)."""
+        if not I.path.branch(z3.Bool(I.path.fresh_name("consolidate.fires")), "consolidate"):
+            return None
+        v = SNum(z3.Real(I.path.fresh_name(f"{o.name}.folded")), z3.Bool(I.path.fresh_name(f"{o.name}.folded_is_int")))
+        r = I.instantiate(self.prog.classes["Constant"], [v], {})
+        I.path.assume(spec.vars_of(I, o) == sym.empty_set())
+        for pt in list(I.ghost.get("points", {}).values()):
+            d = spec.den(I, o, pt)
+            I.path.assume(z3.And(d.D, d.V == real_term(v)))
+        I.call_log.append(("_consolidate_expression_lacking_variables", o.name, "fired"))
+        return r
+
     def c_reducer(self, I, o, name, args, kwargs):
         """A rewrite rule: returns None or an expression that refines the receiver."""
         if I.path.branch(z3.Bool(I.path.fresh_name(f"{name}.fires")), name):
             r = self._result_child(I, o, name[len("_reduce_"):])
             self.assume_refines(I, o, r)
+            I.call_log.append((name, o.name, "fired"))
             return r
+        I.call_log.append((name, o.name, "declined"))
         return None
 
     # -- equality / hashing / printing --------------------------------------------------
